@@ -11,6 +11,17 @@ class InjectedFault(Exception):
     pass
 
 
+class InjectedOSError(InjectedFault, OSError):
+    """what a failing write looks like to the code under test (full disk, lock held elsewhere, read-only file)"""
+
+
+class InjectedRuntimeError(InjectedFault, RuntimeError):
+    """what h5py raises for many failed HDF5 calls"""
+
+
+FAULT_CLASSES = [InjectedFault, InjectedOSError, InjectedRuntimeError]
+
+
 class LineFailpoints:
     """Count LINE events in the given code objects; optionally raise at the k-th one."""
 
@@ -20,6 +31,7 @@ class LineFailpoints:
         self.target = None
         self.fired_at = None
         self.trace = []
+        self.exc_class = InjectedFault
 
     def _cb(self, code, line):
         self.count += 1
@@ -27,7 +39,7 @@ class LineFailpoints:
             self.trace.append((code.co_name, line))
         if self.target is not None and self.count == self.target:
             self.fired_at = (code.co_name, line)
-            raise InjectedFault(f"injected at {code.co_name}:{line} (event {self.count})")
+            raise self.exc_class(f"injected at {code.co_name}:{line} (event {self.count})")
         return None
 
     def __enter__(self):
